@@ -54,6 +54,33 @@ Corollary reader_any_chunking : forall (al : alpha) (bytes : str) (s : stream),
   run_reader (parse_record_fixed al) s = run_reader (parse_record_fixed al) [bytes].
 Proof. intros al bytes s H. apply run_reader_same. simpl. rewrite app_nil_r. exact H. Qed.
 
+(* Empty chunks (review C14-7).  A [stream] is a PARTITION of the bytes into the pieces the
+   BufRead delivers; an empty piece is not a delivery (Stream.read_until_nl goes on to the next
+   chunk: `fill_buf` returns the unconsumed part of the first non-empty chunk, Stream.v header).
+   So the theorems above, which quantify over all lists of chunks, say nothing more and nothing
+   less for streams with empty chunks than for those without: *)
+Definition nonempty_chunk (c : str) : bool := match c with [] => false | _ => true end.
+
+Theorem empty_chunks_are_not_deliveries : forall (parse : parser record) (post : nat) (s : stream),
+  Forall (fun c => c <> []) (filter nonempty_chunk s) /\
+  concat (filter nonempty_chunk s) = concat s /\
+  run_reader parse (filter nonempty_chunk s) = run_reader parse s /\
+  run_reader_post parse post (filter nonempty_chunk s) = run_reader_post parse post s.
+Proof.
+  intros parse post s.
+  assert (C : concat (filter nonempty_chunk s) = concat s).
+  { induction s as [|c s IH]; [reflexivity|]. destruct c; simpl; [exact IH|]. rewrite IH. reflexivity. }
+  split; [|split; [exact C|split]].
+  - apply Forall_forall. intros c Hc. apply filter_In in Hc. destruct Hc as [_ Hc]. destruct c; [discriminate|congruence].
+  - apply run_reader_same, C.
+  - apply run_reader_post_same, C.
+Qed.
+(* What std does when `fill_buf` really returns an empty slice -- read_until returns what it has,
+   read_line returns Ok(n) with a line without line feed or Ok(0) -- is the END of the input in this
+   model (the last chunk has been delivered); a BufRead that reports the end of input and later
+   delivers more bytes (a growing file) is not a chunking of a byte string and is outside C14 / C15
+   (props/transfac_specs.py assumptions). *)
+
 (* ---- round trip ---- *)
 
 (* The record parser on the text of one printed record: exactly the expected record, the
@@ -149,6 +176,28 @@ Theorem check_c14p_sound : forall (expected : list record) (post : nat) (o : lis
   check_c14p expected post o = true ->
   o = map (fun r => BRec (observe_record r)) expected ++ BEnd :: repeat BEnd post.
 Proof. exact PollProofs.check_c14p_sound. Qed.
+
+(* wave 3: the chunking clause and the record count of a bundled file, as extracted checkers
+   (the driver's PROPFAIL `chunking-dependent` / `bundled-file records`): exactly what they say *)
+Theorem check_same_chunkings_sound : forall seqs : list (list obs),
+  check_same_chunkings seqs = true <-> exists h t, seqs = h :: t /\ Forall (eq h) t.
+Proof. exact check_same_chunkings_spec. Qed.
+
+Theorem check_count_sound : forall (n post : nat) (o : list obs),
+  check_count n post o = true <->
+  exists rs, length rs = n /\ o = map BRec rs ++ BEnd :: repeat BEnd post.
+Proof. intros n post o. apply check_count_spec. Qed.
+
+(* ... and they demand no more than the theorems give: the model's observations under any two
+   chunkings pass the first (reader_chunk_independent), a round-trip file passes the second *)
+Theorem model_passes_same_chunkings : forall (al : alpha) (post : nat) (s : stream) (ss : list stream),
+  Forall (fun s' => concat s' = concat s) ss ->
+  check_same_chunkings (map (fun s' => observe_run (run_reader_post (parse_record_fixed al) post s')) (s :: ss)) = true.
+Proof.
+  intros al post s ss F. apply check_same_chunkings_spec. eexists _, _. split; [reflexivity|].
+  apply Forall_map. rewrite Forall_forall in *. intros s' Hs'.
+  rewrite (run_reader_post_same (parse_record_fixed al) post s' s (F s' Hs')). reflexivity.
+Qed.
 
 Theorem check_c14p_is_check_c14 : forall (expected : list record) (o : list obs),
   check_c14p expected 0 o = check_c14 expected o.
